@@ -1,5 +1,62 @@
-(* STUB: Impl model of viot.rs -- to be written *)
-From Coq Require Import NArith List.
-From ACPI Require Import Lib.Bytes Lib.Sx Lib.Machine Impl.Checksum Impl.Table Impl.Fields Impl.Run.
+(* Impl model of viot.rs (Virtual I/O Translation table).  Case vocabulary: see Spec/ViotS.v. *)
+From Coq Require Import NArith List Bool.
+From ACPI Require Import Lib.Bytes Lib.Sx Lib.Machine Impl.Checksum Impl.Table Impl.Fields Impl.Run Impl.Madt.
 Import ListNotations.
-Definition viot_case (md : mode) (c : sx) : list ev := [EvPanic].
+Open Scope N_scope.
+
+(* PciDevice::new(segment, bus, device, function): asserts device < 32, function < 8.  Result: (segment, as_bdf) *)
+Definition viot_pci (x : sx) : option (N * N) :=
+  match x with
+  | SL [SA seg; SA bus; SA dev; SA fn] => do _ <- pci_ok dev fn; Some (seg, bdf bus dev fn)
+  | _ => None
+  end.
+
+(* PciRange: byte 1, byte 0, word 24, dword first.bdf, word first.segment, word last.segment, word first.bdf,
+   word last.bdf, word translation_offset, word 0, dword 0 *)
+Definition pci_range_bytes (first last : N * N) (off : N) : list N :=
+  b1 1 ++ b1 0 ++ w2 24 ++ d4 (cast U32 (snd first)) ++ w2 (fst first) ++ w2 (fst last) ++ w2 (snd first) ++ w2 (snd last)
+  ++ w2 off ++ w2 0 ++ d4 0.
+
+(* MmioEndpoint: byte 2, byte 0, word 24, dword endpoint, qword base, word translation_offset, word 0, dword 0 *)
+Definition mmio_endpoint_bytes (ep base off : N) : list N :=
+  b1 2 ++ b1 0 ++ w2 24 ++ d4 ep ++ q8 base ++ w2 off ++ w2 0 ++ d4 0.
+
+(* VirtIoPciIommu: byte 3, byte 0, word 16, word segment, word bdf, qword 0 *)
+Definition virtio_pci_bytes (dev : N * N) : list N :=
+  b1 3 ++ b1 0 ++ w2 16 ++ w2 (fst dev) ++ w2 (snd dev) ++ q8 0.
+
+(* VirtIoMmioIommu: byte 4, byte 0, word 16, dword 0, qword base *)
+Definition virtio_mmio_bytes (base : N) : list N :=
+  b1 4 ++ b1 0 ++ w2 16 ++ d4 0 ++ q8 base.
+
+Definition viot_new (c : sx) : option tbl :=
+  match c with
+  | SL [o; t; r] =>
+      do h <- sx_hdr [86; 73; 79; 84] 1 o t r;          (* "VIOT" *)
+      Some (tbl_new KViot h [])
+  | _ => None
+  end.
+
+(* add_*: update_header(node.u8sum(), T::len() as u32); handle_offset = handle_offset.checked_add(T::len() as u16).expect(..);
+   push.  The two IOMMU adds return TranslationHandle(old handle_offset); the claimed lengths are the constants
+   PciRange::len() = MmioEndpoint::len() = 24, VirtIoPciIommu::len() = VirtIoMmioIommu::len() = 16. *)
+Definition viot_addition (s : tbl) (o : sx) : option addition :=
+  match o with
+  | SL [SA 1; first; last; href] =>                         (* add_pci_range *)
+      do f <- viot_pci first; do l <- viot_pci last; do h <- handle_ref s href;
+      Some {| a_style := SumAdd; a_claimed := 24; a_bytes := pci_range_bytes f l h; a_returns := false; a_flag := t_flag s |}
+  | SL [SA 2; SA ep; SA base; href] =>                      (* add_mmio_endpoint *)
+      do h <- handle_ref s href;
+      Some {| a_style := SumAdd; a_claimed := 24; a_bytes := mmio_endpoint_bytes ep base h; a_returns := false; a_flag := t_flag s |}
+  | SL [SA 3; dev] =>                                       (* add_virtio_pci_iommu -> TranslationHandle *)
+      do d <- viot_pci dev;
+      Some {| a_style := SumAdd; a_claimed := 16; a_bytes := virtio_pci_bytes d; a_returns := true; a_flag := t_flag s |}
+  | SL [SA 4; SA base] =>                                   (* add_virtio_mmio_iommu -> TranslationHandle *)
+      Some {| a_style := SumAdd; a_claimed := 16; a_bytes := virtio_mmio_bytes base; a_returns := true; a_flag := t_flag s |}
+  | _ => None
+  end.
+
+Definition viot_step : mode -> tbl -> sx -> option (tbl * list ev) := add_step viot_addition.
+
+Definition viot_case (md : mode) (c : sx) : list ev :=
+  run_history (fun s => Some (tbl_image s)) (viot_step md) viot_new c.
